@@ -23,7 +23,7 @@ RULE = (
     "frames that separate the versions (V_RGB >= 1.5; V_TEXT and presentation request >= 2.0; "
     "I_HEARTBEAT_REQUEST name >= 2.1; internal 32 >= 2.2) and compared with an independent numeric floor rule; the "
     "same for the version a node presents, observed through which controller set-value calls a sleeping node of "
-    "that version accepts. Non-trivial = option subset of size >= 2 containing a transport option, or a version "
+    "that version accepts. Child tables: in freshly imported library modules children of every type x every value type are validated under 8 version strings in 4 different orders; the acceptance matrix must be independent of the order, equal for spellings of one version, and refuse value types beyond the floor version. Non-trivial = option subset of size >= 2 containing a transport option, or a version "
     "string that is not one of the five canonical ones; distinct by (class, subset) / string."
 )
 
